@@ -276,6 +276,31 @@ def x_table(mod, prec):
     return _table_cache[key]
 
 
+def rule_expert_conj_rowwise(mod, rep):
+    """complex + row-wise storage + CONJ: op(A) = A**H = conj(AA) for the column-wise view AA of the same arrays; no value of
+    the transpose flag handed to ?gstrs/?gsrfs expresses that, a conjugation of B and X (or of AA) is required"""
+    rep.rule("X-CONJ-NR", "p{c,z}gssvx with Stype=SLU_NR and trans=CONJ: the system solved must be conj(AA)*X = B for the column-wise view AA; the model has no "
+             "admissible transpose flag for it, so the partition must either conjugate B/X around the solve or be rejected in the prologue", floor=2)
+    e = mod.enums
+    for prec in "cz":
+        if "p%sgssvx" % prec not in mod.funcs:
+            continue
+        f, rows = x_table(mod, prec)
+        bad = None
+        for part, it, got in rows:
+            kw = part.kw
+            if kw["Stype"] == "SLU_NR" and kw["trans"] == "CONJ" and kw["finfo"] == "OK" and kw["lwork"] == 0:
+                gs = [a for a in got if a[0] == "gstrs"]
+                conj = [i for i, a in it.events if False]
+                if gs and not any("conj" in str(a).lower() for a in got):
+                    bad = (kw, gs)
+        if bad:
+            rep.fail("X-CONJ-NR", "%s#NR+CONJ" % f.name, "row-wise A with trans=CONJ is solved as %s of the column-wise view with no conjugation: X solves A**T... not A**H*X=B (info=0)" % (
+                "NOTRANS" if bad[1][0][1] == e["NOTRANS"] else "TRANS"), f.file, f.name)
+        else:
+            rep.ok("X-CONJ-NR", "%s#NR+CONJ" % f.name, "NR+CONJ handled or rejected", f.file, f.name)
+
+
 def rule_expert_table(mod, rep, pid, partition_filter=None, classes=None, rule="X-TABLE"):
     classes = classes or OWN[pid]
     rep.rule(rule, "p?gssvx: for every partition of (Stype, trans, fact, equed_in, lwork, ?gsequ outcome, ?laqgs outcome, factor outcome) the atoms of classes %s "
